@@ -137,6 +137,31 @@ def u2_sticky_userdata(src, parts, full, any_topic=False):
     A.check_balance(src, "sticky", parts, subs, res, tag="user data of two generations: ")
 
 
+def u3_sticky_growth(src, max_a, b_sizes, growths):
+    """a second sticky round after a topic has gained partitions and members with any subscriptions have joined:
+    the previous owners keep reporting what they had; the new assignment is valid and KIP-54 balanced"""
+    import itertools
+    topics = ["ta", "tb"]
+    subsets = [s for r in range(1, 3) for s in itertools.combinations(topics, r)]
+    parts = {"ta": 1 + src.choice("partitions_ta", max_a), "tb": b_sizes[src.choice("partitions_tb", len(b_sizes))]}
+    nold = 1 + src.choice("old_members", 2)
+    subs = {f"m{i}": list(subsets[src.choice(f"sub_m{i}", len(subsets))]) for i in range(nold)}
+    res = A.run_assign("sticky", parts, subs)
+    A.check_validity(src, "sticky", parts, subs, res, tag="round 1: ")
+    grow_t = topics[src.choice("topic_that_grows", 2)]
+    parts2 = dict(parts)
+    parts2[grow_t] += growths[src.choice("new_partitions", len(growths))]
+    nnew = src.choice("new_members", 3)
+    names = [["a0", "a1"], ["x0", "y0"]][src.choice("new_member_ids_sort_last", 2)]
+    subs2 = dict(subs)
+    for j in range(nnew):
+        subs2[names[j]] = list(subsets[src.choice(f"sub_new{j}", len(subsets))])
+    res2 = A.run_assign("sticky", parts2, subs2, previous=res, generation=1)
+    src.note({"partitions": parts, "then": parts2, "subscriptions": subs2, "first": res, "second": res2})
+    A.check_validity(src, "sticky", parts2, subs2, res2, tag="after the topic grew: ")
+    A.check_balance(src, "sticky", parts2, subs2, res2, tag="after the topic grew: ")
+
+
 def harnesses(tier):
     q = tier == "quick"
     hs = [Harness(name=f"U2_sticky_userdata_{'x'.join(str(v) for v in parts.values())}{'_full' if full else ''}{'_dropped_topics' if anyt else ''}", fn=u2_sticky_userdata,
@@ -149,6 +174,13 @@ def harnesses(tier):
                   max_seconds=600 if q else 3000, max_paths=5000000, twin_max_paths=5000)
           for parts, full, anyt in ([({"ta": 3, "tb": 2}, False, False), ({"ta": 3, "tb": 2}, False, True)] if q else
                                     [({"ta": 3, "tb": 2}, True, False), ({"ta": 2, "tb": 2, "tc": 1}, False, False), ({"ta": 3, "tb": 2}, True, True)])]
+    hs.append(Harness(name="U3_sticky_after_topic_growth", fn=u3_sticky_growth,
+                      params={"max_a": 2, "b_sizes": [3, 5], "growths": [0, 2]} if q else {"max_a": 3, "b_sizes": [2, 3, 4, 5], "growths": [0, 1, 2, 3]},
+                      functions=[StickyPartitionAssignor.assign, StickyAssignmentExecutor.balance, StickyAssignmentExecutor._perform_reassignments],
+                      shape="U",
+                      symbolic_vars="finite-domain choices: partition counts, 1-2 old members and 0-2 new members with any subscriptions, which topic grows and by how much, ids of the new members",
+                      bounds={"topics": 2, "members": "1..4", "rounds": 2}, note="exhaustive enumeration by the engine's DFS",
+                      max_seconds=600 if q else 3000, max_paths=5000000, twin_max_paths=5000))
     for n in ([1, 2, 3, 4] if q else [1, 2, 3, 4, 5, 6, 7]):
         hs.append(Harness(name=f"K1_range_arithmetic_{n}members", fn=k1_range_arithmetic, params={"nmembers": n},
                           functions=[RangePartitionAssignor.assign], shape="K",
